@@ -135,6 +135,17 @@ theorem C05_refused_undelete_restores_free_map (c : Cfg) (v pSect : Nat) (entry 
     Post AnyFault c (undelFileLink v pSect entry data exts) s (fun r s' => r.2 = none → FreeMapEq v s.mem s'.mem) :=
   undelFileLink_refused_restores c v pSect entry data exts s hwf hfree
 
+/-- **`adfUndelFile`, the whole call: either the free map is what it was, or the file has been linked** — every volume type,
+    disk content, entry block, volume state and fault schedule: every way the call can end without a successful link write
+    in its log (wrong parent, header block in use, unreadable extension chain, a block of the file in use, the name exists
+    again, a refused write) leaves the free map block for block as it was when the call began. -/
+theorem C05_undelete_file_restores_or_links (c : Cfg) (v pSect : Nat) (entry : Blk) (s : St)
+    (hwf : TableWF (s.mem.vol v).bitmapTable) :
+    Post AnyFault c (undelFile v pSect entry) s (fun _ s' => FreeMapEq v s.mem s'.mem ∨
+      ∃ W e, writesOf s'.trace = W ++ writesOf s.trace ∧ e ∈ W ∧ e.status = 0 ∧
+        ∃ d1, IsCreateLinkWr c d1 v (blkOfBytes ((s.sector (vsect c v pSect)).take 512)) (entry.w F_headerKey) e) :=
+  undelFile_restores_or_links c v pSect entry s hwf
+
 /-- **`adfUndelDir` takes the directory's block exactly when it links the directory** (volumes without directory cache): after
     the call either the free map is block for block what it was (every refusal), or a successful link write for the
     directory's block is in the call's write log and exactly that block, free before, is used now. -/
